@@ -130,6 +130,32 @@ template <typename T, typename E = std::mt19937> void all_for(char const* tname0
     }
 }
 
+// counters beyond the integers the numeric type holds exactly: one float iteration with 2^24 + 5 evaluations per rank, all non-zero, every
+// seventh non-finite; the reduced counters must be the numbers of such evaluations (they are integers, not sums in the numeric type)
+static void big_counts()
+{
+    typedef float T;
+    std::size_t const n = (std::size_t(1) << 24) * g_world + 5 * g_world + 3;
+    unsigned long evals = 0, bad = 0;
+    auto f = [&](hep::mc_point<T> const&, hep::projector<T>& p) { ++evals; bool const b = evals % 7 == 0; if (b) ++bad;
+        T const v = b ? std::numeric_limits<T>::quiet_NaN() : T(1); p.add(0, T(0.5), T(1)); return v; };
+    auto c0 = hep::make_plain_chkpt<T>(std::mt19937_64(7));
+    auto chk = hep::mpi_plain(MPI_COMM_WORLD, hep::make_integrand<T>(f, 1, hep::make_dist_params<T>(1, T(), T(1), "d")), std::vector<std::size_t>{n}, c0,
+        hep::mpi_callback<decltype(c0)>(hep::callback_mode::silent));
+    unsigned long mine[2] = {evals, bad}, all[2] = {0, 0};
+    MPI_Allreduce(mine, all, 2, MPI_UNSIGNED_LONG, MPI_SUM, MPI_COMM_WORLD);
+    auto const& r = chk.results().back(); auto const& b = r.distributions().at(0).results().at(0);
+    bool const ok = r.calls() == n && all[0] == n && r.non_zero_calls() == all[0] && r.finite_calls() == all[0] - all[1] && b.non_zero_calls() == all[0] && b.finite_calls() == all[0];
+    if (g_rank == 0 && !ok)
+    {
+        char buf[400];
+        std::snprintf(buf, sizeof buf, "mpi_plain<float>, one iteration of %zu calls: %lu evaluations were non-zero and %lu of them non-finite, the result reports calls=%zu non_zero_calls=%zu finite_calls=%zu, "
+            "the bin non_zero_calls=%zu finite_calls=%zu", n, all[0], all[1], r.calls(), r.non_zero_calls(), r.finite_calls(), b.non_zero_calls(), b.finite_calls());
+        ++g_fail; std::printf("FAIL C04 %s\nFAIL C02 real MPI: %s\nFAIL C06 real MPI: %s\n", buf, buf, buf);
+    }
+    else if (g_rank == 0) ++g_ok;
+}
+
 int main(int argc, char** argv)
 {
     MPI_Init(&argc, &argv);
@@ -145,6 +171,7 @@ int main(int argc, char** argv)
     all_for<long double, std::ranlux24>("long double", seed * 100 + 66, "ranlux24");
     all_for<float, std::knuth_b>("float", seed * 100 + 67, "knuth_b");
     all_for<long double, lcg_m24>("long double", seed * 100 + 68, "lcg a=69069 c=7 m=2^24-3");
+    big_counts();
     if (g_rank == 0) std::printf("SUMMARY ok=%d fail=%d world=%d\n", g_ok, g_fail, g_world);
     MPI_Finalize();
     return 0;
